@@ -244,11 +244,12 @@ class World:
                       where, len(missing), len(extra), (list(extra) or list(missing))[:1]))
         return None
 
-    def check_filter(self, op, rows, where):
+    def check_filter(self, op, rows, where, model=None):
         self.evaluated += 1
+        model = self.model if model is None else model
         m, p, n = op["m"], op.get("p"), op.get("n")
         lim = 2000 if n is None else n
-        match = {r for r in self.model if r[0] == m and (p is None or (r[1] or "").startswith(p))}
+        match = {r for r in model if r[0] == m and (p is None or (r[1] or "").startswith(p))}
         d = len(match)
         got = [tuple(r) for r in rows]
         site = {"m": m, "p": p, "n": n, "where": where}
@@ -260,7 +261,7 @@ class World:
         if len(set(got)) != len(got):
             self.viol("C09.filter-distinct", None, site, "duplicate rows in result")
         for r in got:
-            if r not in self.model:
+            if r not in model:
                 self.viol("C09.filter-member", None, site, "row %r was never committed" % (r[:2],))
                 break
         if len(got) != min(lim, d):
@@ -305,7 +306,13 @@ class World:
                 else:
                     self.viol("C09.filter-count", None, {"where": where}, "filter failed: " + r["err"])
             else:
-                self.check_filter(d, r["rows"], where + ":filter")
+                # the parked writer may already be past its commit point (the COMMIT statement has VM steps too): the table is
+                # stable while it is parked, so an independent read tells which of the two states the filter has to match
+                model = None
+                if self._inflight is not None and self.check_raw(where + ":filter-pre", alt=self.inflight_alt()) == "alt":
+                    self.probes["observation landed after the commit point"] += 1
+                    model = self.inflight_alt()
+                self.check_filter(d, r["rows"], where + ":filter", model=model)
         elif k == "write":
             ai = d["actor"]
             if ai == parked_actor_idx:
